@@ -6,7 +6,8 @@ export CARGO_NET_OFFLINE=true
 python3 - <<'PY'
 import sys
 sys.path.insert(0, ".")
-from vf import core
+from vf import core, selfcheck
+selfcheck.main()
 print("ldbtool:", core.ldbtool())
 print("release:", core.build("release"))
 print("debug:", core.build("debug"))
